@@ -28,28 +28,32 @@ def make_residual(spec):
             return out
 
         return r
+    f = make_embedded(spec)
+    return lambda t, x_hat, gamma: f(
+        np.asarray(t, dtype=float), gamma(np.asarray(x_hat, dtype=float)))
+
+
+def make_embedded(spec):
+    """f(t, X) for the families that depend on the embedded point only."""
+    fam = spec['family']
     if fam == 'poly_t_embedded':
         # polynomial in t, trigonometric in the embedded coordinates
         ct = np.array(spec['coef_t'])
         a, b, p1, p2 = spec['trig']
 
-        def r(t, x_hat, gamma):
-            t = np.asarray(t, dtype=float)
-            x = gamma(np.asarray(x_hat, dtype=float))
+        def f(t, x):
             pt = sum(ct[i] * t**i for i in range(len(ct)))
             return pt * np.cos(a * x[0] + p1) * np.sin(b * x[1] + p2)
 
-        return r
+        return f
     if fam == 'embedded':
         a, b, p1, p2, c = spec['trig']
 
-        def r(t, x_hat, gamma):
-            t = np.asarray(t, dtype=float)
-            x = gamma(np.asarray(x_hat, dtype=float))
+        def f(t, x):
             return (np.cos(a * x[0] + p1) * np.sin(b * x[1] + p2) *
                     (1.0 + c * t) + 0.3 * np.exp(-t) * x[0])
 
-        return r
+        return f
     raise ValueError(fam)
 
 
@@ -167,6 +171,8 @@ class EstimCase:
         kind = op['op']
         self.cov.inc('ops')
         self.cov.inc('opkind.' + kind)
+        self._n_done = self.run['ops'].index(op) if op in self.run[
+            'ops'] else 0
         if kind == 'refine':
             self.replay(op['ops'])
             self.log.append(('refine', len(self.mesh.leaf_elements)))
@@ -174,6 +180,8 @@ class EstimCase:
             self.op_assembled(op)
         elif kind == 'direct':
             self.op_direct(op)
+        elif kind == 'symmetry':
+            self.op_symmetry(op)
         else:
             raise ValueError(kind)
 
@@ -383,6 +391,97 @@ class EstimCase:
         self.cov.max('max_rel_err_' + which,
                      float(abs(code - ref) / max(abs(ref), 1e-300)))
 
+    def op_symmetry(self, op):
+        """A quarter turn of the square / circle applied to curve, history
+        and residual permutes the indicators (pairs inside the
+        parametrisation are carried across the seam and vice versa)."""
+        curve = self.run['curve']
+        fam = self.spec['family']
+        if curve == 'LShape' or fam == 'poly':
+            self.cov.inc('skipped.op_symmetry_not_applicable')
+            return
+        from .refmesh import S
+        k = 1 + op.get('k', 0) % 3
+        ang = 0.5 * np.pi * k
+        R = np.array([[np.cos(ang), -np.sin(ang)], [np.sin(ang),
+                                                    np.cos(ang)]])
+        R = np.round(R)  # exact quarter turns
+        if curve == 'Circle':
+            c = np.zeros((2, 1))
+            dshift = k * S // 4
+            n_cols = 1
+        else:
+            side = 1.0 if curve == 'UnitSquare' else np.pi
+            c = np.array([[side / 2], [side / 2]])
+            dshift = k * S
+            n_cols = 4
+        pshift = k * self.L / 4
+        hist2 = []
+        for o in self.run['history'] + [
+                q for p in self.run['ops'][:self._n_done] if p['op'] == 'refine'
+                for q in p['ops']
+        ]:
+            o2 = dict(o)
+            if 'pt' in o2:
+                o2['pt'] = [o['pt'][0], (o['pt'][1] + dshift) % (n_cols * S)]
+            hist2.append(o2)
+        EE = repo.mod('src.error_estimator')
+        case2 = meshsim.MeshCase({'kind': 'param', 'curve': curve,
+                                  'space': None, 'time': self.run.get('time')})
+        saved, self.case = self.case, case2
+        try:
+            self.replay(hist2)
+        finally:
+            self.case = saved
+        est2 = EE.ErrorEstimator(case2.mesh, N_poly=self.orders)
+        f = make_embedded(self.spec)
+        Rinv = R.T
+        r2 = lambda t, xh, g: f(np.asarray(t, dtype=float), Rinv @ (g(
+            np.asarray(xh, dtype=float)) - c) + c)
+        e1 = list(self.mesh.leaf_elements)
+        e2 = list(case2.mesh.leaf_elements)
+        if len(e1) != len(e2):
+            self.cov.inc('skipped.op_symmetry_history_not_invariant')
+            return
+        simdisk.arm(stats=self.cov)
+        simmp.arm(4, 1, stats=self.cov, clock=simclock.CLOCK)
+        A = (self.call('sobolev/serial', lambda: self.est.estimate_sobolev(
+            e1, self.residual)), self.call(
+                'wl2/serial',
+                lambda: self.est.estimate_weighted_l2(e1, self.residual)))
+        B = (self.call('sobolev/serial',
+                       lambda: est2.estimate_sobolev(e2, r2)),
+             self.call('wl2/serial',
+                       lambda: est2.estimate_weighted_l2(e2, r2)))
+        L = self.L
+        for i, a in enumerate(e1):
+            xa = (a.space_interval[0] + pshift) % L
+            j = [
+                m for m, b in enumerate(e2)
+                if b.time_interval == a.time_interval and min(
+                    abs(b.space_interval[0] - xa),
+                    L - abs(b.space_interval[0] - xa)) < 1e-9
+                and abs(b.h_x - a.h_x) < 1e-9
+            ]
+            if len(j) != 1:
+                self.cov.inc('skipped.op_symmetry_history_not_invariant')
+                return
+            for name, (P, Q) in (('sobolev', (A[0], B[0])), ('wl2', (A[1],
+                                                                     B[1]))):
+                for col in range(2):
+                    u, v = float(P[i, col]), float(Q[j[0], col])
+                    if abs(u - v) > 1e-7 * max(abs(u), abs(v)) + 1e-14:
+                        self.viol(
+                            'symmetry', name + '/' + ('time', 'space')[col], {
+                                'elem': repr(a),
+                                'image': repr(e2[j[0]]),
+                                'value': u,
+                                'image_value': v,
+                                'quarter_turns': k
+                            })
+        self.cov.inc('probe.symmetry_compared')
+        self.log.append(('symmetry', k, len(e1)))
+
     def op_direct(self, op):
         elems = sorted(self.mesh.leaf_elements,
                        key=lambda e: (e.time_interval, e.space_interval))
@@ -524,6 +623,8 @@ def gen_run(seed, params):
                 'order_seed': rng.randrange(1 << 30),
                 'n_rows': 4
             })
+        elif r < 0.35 + params.get('p_symmetry', 0.1):
+            ops.append({'op': 'symmetry', 'k': rng.randrange(3)})
         elif r < 0.9:
             ops.append({
                 'op': 'direct',
